@@ -68,6 +68,16 @@ class Rec(System):
         self.world.on_execute(self)
 
 
+class EqRec(Rec):
+    """A recording system with value-based equality (what @dataclass gives a System subclass): two systems compare
+    equal when their priorities are equal. Identity is what the scheduler must go by."""
+
+    def __eq__(self, other):
+        return isinstance(other, System) and self.priority == other.priority
+
+    __hash__ = None
+
+
 def gen_window(rng, horizon, always=0.7):
     """Activation window; most systems are always on so that the state grows."""
     if rng.random() < always:
